@@ -226,6 +226,35 @@ def runEvents : List Ev → List (Bool × Nat)
   | .fin id _ :: es => (false, id) :: runEvents es
   | _ :: es => runEvents es
 
+/-- ids of the calls whose callee returned, oldest first -/
+def finIds : List Ev → List Nat
+  | [] => []
+  | .fin id _ :: es => id :: finIds es
+  | _ :: es => finIds es
+
+/-- the caller's context of call id has been cancelled -/
+def Cancelled (calls : List CallRec) (id : Nat) : Prop := ∃ rec ∈ calls, rec.id = id ∧ rec.ctxDone = true
+
+/-- the run discipline of one lane as a tiny automaton over `runEvents`: `some none` = nothing runs,
+`some (some c)` = call c runs, `none` = discipline broken (a start while another call runs, or an end of a
+call that does not run) -/
+def runStep : Option (Option Nat) → Bool × Nat → Option (Option Nat)
+  | some none, (true, id) => some (some id)
+  | some (some c), (false, id) => if c = id then some none else none
+  | _, _ => none
+
+def runState (evs : List (Bool × Nat)) : Option (Option Nat) := evs.foldl runStep (some none)
+
+def consRunning : Cons → Option Nat
+  | .running c => some c
+  | _ => none
+
+/-- remaining iterations of the consumer loop once the lane is stopped -/
+def Lane.remaining (l : Lane) : Nat :=
+  match l.cons with
+  | .exited => 0
+  | _ => l.queue.length + 1
+
 /-! ### quiescent closure (used by the oracle): run the internal steps — callers' receives and the
 consumer's loop — until none is enabled.  Where ProcChan's `select` is ambiguous both branches are kept. -/
 
